@@ -266,40 +266,55 @@ InvNoUndefined == Sharing = "perObject" => ~undef
 IterCalls == {"iterate", "iterate_n", "run"}
 
 (* A completed simulation stays completed until a new set-up. *)
-StickyComplete ==
-  [][obs'.call # "setup" =>
-       \A s \in Slot : (alg[s].live /\ alg[s].complete /\ alg'[s].live) => alg'[s].complete]_vars
+StickyCompleteA ==
+  obs'.call # "setup" =>
+       \A s \in Slot : (alg[s].live /\ alg[s].complete /\ alg'[s].live) => alg'[s].complete
+StickyComplete == [][StickyCompleteA]_vars
 
 (* Iterating a completed simulation changes nothing but the per-iteration flag. *)
-IdleAfterDone ==
-  [][obs'.call \in IterCalls =>
+IdleAfterDoneA ==
+  obs'.call \in IterCalls =>
        LET s == Own(obs'.obj)
-       IN  (alg[s].live /\ alg[s].complete) => alg'[s] = [alg[s] EXCEPT !.done = FALSE]]_vars
+       IN  (alg[s].live /\ alg[s].complete) => alg'[s] = [alg[s] EXCEPT !.done = FALSE]
+IdleAfterDone == [][IdleAfterDoneA]_vars
 
 (* Only iterations advance the simulation; observers are read-only;          *)
 (* a manual sample only appends a record.                                    *)
-OnlyIterationsAdvance ==
-  [][\A s \in Slot :
+OnlyIterationsAdvanceA ==
+  \A s \in Slot :
        (alg'[s].n # alg[s].n \/ alg'[s].t # alg[s].t \/ alg'[s].complete # alg[s].complete)
-          => obs'.call \in (IterCalls \cup {"setup"})]_vars
+          => obs'.call \in (IterCalls \cup {"setup"})
+OnlyIterationsAdvance == [][OnlyIterationsAdvanceA]_vars
 
-ObserversReadOnly ==
-  [][obs'.call \in {"get_progress", "is_complete", "get_output"} => UNCHANGED core]_vars
+ObserversReadOnlyA ==
+  obs'.call \in {"get_progress", "is_complete", "get_output"} => UNCHANGED core
+ObserversReadOnly == [][ObserversReadOnlyA]_vars
 
-ManualRule ==
-  [][obs'.call = "sample" =>
+ManualRuleA ==
+  obs'.call = "sample" =>
        LET s == Own(obs'.obj)
        IN  IF alg[s].done THEN alg'[s] = alg[s]
            ELSE /\ Len(alg'[s].recT) = Len(alg[s].recT) + 1
                 /\ alg'[s].recT[Len(alg'[s].recT)] = alg[s].t
-                /\ alg'[s].recBy[Len(alg'[s].recT)] = "manual"]_vars
+                /\ alg'[s].recBy[Len(alg'[s].recT)] = "manual"
+ManualRule == [][ManualRuleA]_vars
 
 (* Engine objects are independent: a call on one leaves the other's simulation alone. *)
-Isolation ==
-  [][Sharing = "perObject" =>
-       \A e \in Objects : (obs'.call # "init" /\ obs'.obj # e) => (alg'[e] = alg[e] /\ unf'[e] = unf[e])]_vars
+IsolationA ==
+  Sharing = "perObject" =>
+       \A e \in Objects : (obs'.call # "init" /\ obs'.obj # e) => (alg'[e] = alg[e] /\ unf'[e] = unf[e])
+Isolation == [][IsolationA]_vars
 
-CleanSlate ==
-  [][obs'.call = "setup" =>
-       \E s \in Slot : alg'[s] = NativeInit(alg'[s].cfg) /\ alg'[s].live]_vars
+CleanSlateA ==
+  obs'.call = "setup" =>
+       \E s \in Slot : alg'[s] = NativeInit(alg'[s].cfg) /\ alg'[s].live
+CleanSlate == [][CleanSlateA]_vars
+
+AllInv ==
+  /\ InvShape /\ InvStepTimes /\ InvRecIsStep /\ InvT0Record /\ InvPolicyMono /\ InvAllMono /\ InvOnePerStep
+  /\ InvOnTSample /\ InvOnTSampleEnd /\ InvOnIteration /\ InvOnInterval /\ InvNoSampling /\ InvFixedEnd
+  /\ InvGillEnd /\ InvPosRange /\ InvStatusCurrent
+AllAct ==
+  /\ StickyCompleteA /\ IdleAfterDoneA /\ OnlyIterationsAdvanceA /\ ObserversReadOnlyA /\ ManualRuleA
+  /\ IsolationA /\ CleanSlateA
 =============================================================================
